@@ -343,9 +343,11 @@ def run_case(case):
                     continue
                 chunks[0][1] -= 1
                 return p
-            if last in runnable:
+            if last in runnable and not waiting[last].startswith("sleep("):
                 return last
-            return runnable[0]
+            # somebody who sleeps (polls) lets the others run
+            later = [p for p in runnable if last is None or p > last]
+            return (later or runnable)[0]
 
         logp = vsched.LogProxy(s)
         result = None
@@ -366,7 +368,7 @@ def run_case(case):
             try:
                 result = s.run(policy, invariant=lambda: invariant(world))
             except vsched.Deadlock as e:
-                result = f"deadlock: {e}"
+                result = f"no progress: {e}"
             finally:
                 for fd in list(s.fd_owner):
                     try:
